@@ -451,6 +451,8 @@ def thread_programs(cl, nthreads, rng):
         first = rng.choice(by_entry)
         rest = rng.sample(calls, min(len(calls), 5))
         progs.append([first] + rest)
+    if rng.random() < 0.3:  # lockstep batches: every thread runs the same program (tight check-then-act races need it)
+        progs = [list(progs[0]) for _ in progs]
     return progs
 
 
@@ -664,7 +666,7 @@ def run_two(state, cl, vals, prog_a, prog_b, k, j):
 
 
 def solo_events(state, tw, prog_of, entry, op):
-    """solo run of one schedule thread: number of hook events and, per hook site, the index of its first event"""
+    """solo run of one schedule thread: number of hook events and, per hook site, the indices of its first and last event"""
     cl, vals = state.fresh(tw)
     pol = Policy("trace")
     state.inj.set_policy(pol)
@@ -674,10 +676,10 @@ def solo_events(state, tw, prog_of, entry, op):
     finally:
         state.inj.set_policy(None)
     cl.unload()
-    first = {}
+    occ = {}
     for i, site in enumerate(pol.trace):
-        first.setdefault(site, i + 1)
-    return pol.events, first
+        occ.setdefault(site, [i + 1, i + 1])[1] = i + 1
+    return pol.events, occ
 
 
 def one_schedule(state, case, k, j, tw, force_followup=False):
@@ -766,8 +768,10 @@ def systematic(state, budget, until):
         (ka, sites), (kb, _) = K(name, tw, ea, oa), K(name, tw, eb, ob)
         is_core = name == "mutual2" and (ea, eb) == (0, 1) and oa == ob == "deserialize"
         if not is_core:
-            for site, k in sites.items():  # every hook site of A's solo run is a candidate park point (its first event)
-                prio.setdefault((site, oa), []).append((case, k, None))
+            for site, (k1, k2) in sites.items():  # every hook site of A's solo run is a candidate park point (first and last event)
+                prio.setdefault((name, site), []).append((case, k1, None))
+                if k2 != k1:
+                    prio.setdefault((name, site), []).append((case, k2, None))
         for k in range(1, ka + 2):  # ka + 1: "A finished before its k-th event" belongs to the family
             (core if is_core else plan).append((case, k, None))
             if kb > 4:
@@ -775,7 +779,7 @@ def systematic(state, budget, until):
                     plan.append((case, k, max(1, (kb * q) // 4)))
     if state.rank == 0:
         env.count("schedule_family_size", len(core) + len(plan))
-        env.count("hook_sites_x_ops_in_family", len(prio))
+        env.count("shape_x_hook_sites_in_family", len(prio))
     mine = [p for i, p in enumerate(core) if i % state.members == state.rank]
     prng = random.Random(h64("plan", env.seed, state.group))  # same sample in every shard of the group, then sliced
     left = max(0, budget - len(mine)) * state.members
